@@ -348,7 +348,7 @@ func TestC10(t *testing.T) {
 		"write, or any op at an offset below $8000; distinct = hash(case).",
 		func(r *rig.Run) {
 			ev := r.Ev
-			r.Rapid("rapid", rig.Pick(8000, 40000), func(t *rapid.T) {
+			r.Rapid("rapid", rig.Pick(20000, 80000), func(t *rapid.T) {
 				c := c10Gen(t)
 				r.Check(t, "rapid", c, func() error { return c10Check(c) })
 				nw, over := 0, false
